@@ -152,6 +152,20 @@ CHECKS = {
             'entries (>-2e-3 of the maximum at a single grid) are treated as discretisation error; models with directional admixture or two '
             'selection coefficients are swap-tested only in their symmetric sub-family.',
             'DESIGN.md §3 C15'),
+    'C16': ('model_checking',
+            'exhaustive enumeration of programs of the dadi-program grammar (all up to a length bound for 1-3 populations; a curated exhaustive 4-5 population family), each evaluated natively, through an independently written program->demes translator (two graph styles) under every unit / reference-size / deme-order variation, and through export + re-import',
+            'Every program is run natively and compared with dadi.Demes.SFS of the graph produced by our own translator (branch and split style), '
+            'then re-expressed in years, relative to 7x and 0.5x the reference size, with explicit Ne (incl. Ne x7 with theta x7), and for every '
+            'permutation of the sampled demes; frozen populations are translated into ancient samples. The event log of the native run is exported '
+            'with dadi.Demes.output for two (Nref, generation_time) pairs and re-imported. The 4-5 population family covers every split parent, '
+            'every pulse destination in 4-D and 5-D and every frozen pattern incl. the fifth deme. Ancient samples in the middle of constant / '
+            'exponential / linear epochs (first and later epochs, with and without other samples and migration) exercise graph slicing. The YAML '
+            'graphs of the suite are checked under unit conversion and deme order.',
+            'Agreement is required to 1e-8; where two computations legitimately differ by operator splitting or time-step choice (front end '
+            'holding demes in another internal order; frozen branches of nominal size 1/Ne) the error must be below 2e-3 and shrink with the '
+            'time step (counted in evidence). Export with Nref=None normalises rates by design and is not compared. One known finding '
+            '(export of zero-length demes).',
+            'DESIGN.md §3 C16'),
     'C17': ('model_checking',
             'stateless exploration of all thread interleavings of the real cache builder under a controlled scheduler (fake multiprocessing; stateful symmetry-reduced DFS cross-checked by preemption-bounded unpruned DFS), exhaustive fault subsets and merge multisets, plus a quadrature lattice against an independently coded reference',
             'Cache1D/Cache2D._multiple_processes and _worker_sfs run unchanged as baton-passed threads behind a fake multiprocessing module '
